@@ -127,7 +127,10 @@ PileRowsOK(opts, own, avail, r) ==
 (*          given "the remaining space"; FALSE for a child whose extent is its own: the rows of a flow    *)
 (*          widget under a Filler, a fixed widget),                                                       *)
 (*     L, R (fixed margins),                                                                              *)
-(*     clip (TRUE when the decoration can clip: negative margins are clipped child cells)]               *)
+(*     clip (TRUE when the decoration can clip: negative margins are clipped child cells),               *)
+(*     trim (TRUE when it clips by trimming the overflowing child's canvas instead: margins stay >= 0)]   *)
+(* The obsolete spellings align=('fixed left'|'fixed right', n), valign=('fixed top'|'fixed bottom', n) denote the same   *)
+(* configuration as align='left', left=n etc.: they are recorded as that configuration and held to the same relations.  *)
 (* result: l, r (margins), child (extent of the child along the axis)                                     *)
 PadBase(c) == Max2(0, c.avail - c.L - c.R)
 \* sizes that count as "the requested size"
@@ -155,7 +158,10 @@ StrongPadChildOK(c, child) ==                                   \* literal readi
 \* "position it so that margins plus child exactly fill the available space"
 PadFill(c, l, r, child) ==
   \/ l + child + r = c.avail
-  \/ c.clip /\ child > c.avail /\ l = 0 /\ r = 0               \* a clipped child wider than everything
+  \* a decoration that does not clip through negative margins but lets the child overflow and trims its canvas (a Filler
+  \* around a flow child higher than everything): no margins.  One that clips through its margins (Padding width='clip',
+  \* both axes of an Overlay around a fixed top widget) is held to the sentence as written: negative margins count
+  \/ c.clip /\ c.trim /\ child > c.avail /\ l = 0 /\ r = 0
 \* "split the spare space according to the alignment percentage to within rounding"
 PadAlign(c, l, r, child) ==
   PadFits(c, child) =>
@@ -266,6 +272,9 @@ WrongPadMirror(c) == LET p == RefPad([c EXCEPT !.align = 100 - c.align]) IN p
 WrongPadNoMargins(c) == LET p == RefPad([c EXCEPT !.L = 0, !.R = 0]) IN p
 \* minimum size ignored
 WrongPadNoMin(c) == RefPad([c EXCEPT !.min = -1])
+\* a decoration that clips through its margins but floors them at zero (width kind "given" handed on where "clip" is meant):
+\* a child wider than everything is no longer clipped, margins plus child exceed the space
+WrongPadNoClip(c) == LET p == RefPad(c) IN <<Max2(0, p[1]), Max2(0, p[2]), p[3]>>
 \* a shrinking packed child is packed against the whole width: the fixed margins are only taken off afterwards, so a child
 \* that does not fit beside them is handed more than the remaining space and the margins are eaten
 WrongPadPackWhole(c) ==
